@@ -288,13 +288,17 @@ def pyDigits : List Nat → Bool → Option (List Nat)
 def stripSpaces (l : List Nat) : List Nat :=
   ((l.dropWhile isPySpace).reverse.dropWhile isPySpace).reverse
 
+/-- optional sign -/
+def signSplit : List Nat → Bool × List Nat
+  | 45 :: r => (true, r)
+  | 43 :: r => (false, r)
+  | r => (false, r)
+
 /-- `int(s, 10)`; `none` = `ValueError` -/
 def pyInt (s : List Nat) : Option Int :=
   let s := stripSpaces s
-  let (neg, body) := match s with
-    | 45 :: r => (true, r)
-    | 43 :: r => (false, r)
-    | r => (false, r)
+  let neg := (signSplit s).1
+  let body := (signSplit s).2
   match body with
   | [] => none
   | c :: _ =>
